@@ -389,6 +389,13 @@ class Gen:
                     self.add(reqs, evs, corr0, {"family": fam + "-" + term, "clean": False, "terminated": True,
                                                 "stream": stream[:p].hex(), "frames": owners, "cut": p,
                                                 "expect_closed": True})
+                if p:
+                    # the reply bytes and the peer's EOF arrive back to back (as a TLS peer's data + close_notify do): the
+                    # reader task sees both when it runs next
+                    evs = self.send_events(reqs) + [["feed_eof", stream[:p].hex()]]
+                    self.add(reqs, evs, corr0, {"family": fam + "-eof-same-tick", "clean": False, "terminated": True,
+                                                "stream": stream[:p].hex(), "frames": owners, "cut": p,
+                                                "expect_closed": True})
             # close() as the client issues it - with every CloseReason (and none) - after every whole-frame prefix
             for j in range(len(frames) + 1):
                 pre = b"".join(f["bytes"] for f in frames[:j])
@@ -509,7 +516,7 @@ def model_events(sc, cat, streams=None):
             clients.append(False)
         elif k == "send_noresp":
             out.append("SendNoResp")
-        elif k == "feed":
+        elif k in ("feed", "feed_eof"):
             chunk = bytes.fromhex(e[1])
             if streams is not None and len(chunk) >= 1 and stream[off:off + len(chunk)] == chunk:
                 if sname is None:
@@ -518,6 +525,8 @@ def model_events(sc, cat, streams=None):
                 off += len(chunk)
             else:
                 out.append(f'Feed (hx "{e[1]}")')
+            if k == "feed_eof":
+                out.append("Eof")       # the peer's bytes and its EOF reach the stream reader in the same loop iteration
         elif k == "timeout":
             out.append(f"Timeout {e[1]}%nat {'true' if clients[e[1]] else 'false'}")
         elif k == "cancel":
@@ -541,7 +550,7 @@ def scenario_queries(sc, cat):
     asked to decode a body only when the frame's correlation id is its own (or 0 for a quirk
     waiter), so only those pairs are needed (a miss answers false and would surface as a
     disagreement)"""
-    stream = b"".join(bytes.fromhex(e[1]) for e in sc["events"] if e[0] == "feed")
+    stream = b"".join(bytes.fromhex(e[1]) for e in sc["events"] if e[0] in ("feed", "feed_eof"))
     frames, _ = split_frames(stream)
     # correlation ids as send() assigns them while the connection is open
     corr = sc["corr0"]
@@ -615,7 +624,7 @@ def monitor(sc, res, oracle, cat):
     wcorr = res["waiter_corr"]
     # exact delivery, in request order: the delivered responses, by waiter id, are matched greedily to
     # frames of the stream carrying the waiter's own correlation id
-    stream = b"".join(bytes.fromhex(e[1]) for e in sc["events"] if e[0] == "feed")
+    stream = b"".join(bytes.fromhex(e[1]) for e in sc["events"] if e[0] in ("feed", "feed_eof"))
     frames, _ = split_frames(stream)
     pos = 0
     for wid, o in enumerate(outs):
